@@ -1308,6 +1308,15 @@ def error_starts(fn):
                     out.update(rf.err_blocks)
                 elif rf.err_blocks:
                     out.update(rf.err_blocks)
+    # explicit `return Err(..)`: blocks that build the function's own Err result
+    if fn.local_ty(0).startswith("std::result::Result<"):
+        for b, blk in enumerate(fn.blocks):
+            if blk["cleanup"]:
+                continue
+            for st in blk["s"]:
+                rv = st["rv"]
+                if st["p"]["l"] == 0 and not st["p"]["p"] and rv["k"] == "agg" and rv.get("adt") == "std::result::Result" and rv.get("variant") == "Err":
+                    out.add(b)
     out = sorted(out)
     fn._cache["error_starts"] = out
     return out
